@@ -344,6 +344,23 @@ func (m *machine) fres(r64 float64, fz bool) Value {
 }
 
 func (m *machine) scalarBinary(op string, a, b Value) Value {
+	r := m.scalarBinary0(op, a, b)
+	if a.T.S == wgen.AbsInt && !isCmp(op) && (r.I > math.MaxInt32 || r.I < math.MinInt32) {
+		m.ev.AbsWide++
+	}
+	if a.T.S.IsFloat() && (op == "+" || op == "-") && m.constMode {
+		x, y, z := math.Abs(float64(a.F32())), math.Abs(float64(b.F32())), math.Abs(float64(r.F32()))
+		if a.T.S == wgen.AbsFloat {
+			x, y, z = math.Abs(a.F), math.Abs(b.F), math.Abs(r.F)
+		}
+		if x != 0 && y != 0 && z < 1e-4*math.Max(x, y) {
+			m.ev.Cancel++
+		}
+	}
+	return r
+}
+
+func (m *machine) scalarBinary0(op string, a, b Value) Value {
 	k := a.T.S
 	if op == "<<" || op == ">>" {
 		return m.shift(op, a, b)
@@ -390,6 +407,9 @@ func (m *machine) scalarBinary(op string, a, b Value) Value {
 				m.ev.DivZero++
 			} else if x == math.MinInt32 && y == -1 {
 				m.ev.DivOverflow++
+			}
+			if x < 0 || y < 0 {
+				m.ev.RemNeg++
 			}
 			return Value{B: uint32(RemI32(x, y))}
 		case "&":
@@ -481,6 +501,12 @@ func (m *machine) scalarBinary(op string, a, b Value) Value {
 			q := float32(x) / float32(y)
 			formula := float64(float32(x) - float32(y)*float32(math.Trunc(float64(q))))
 			if math.Abs(formula-exact) > 1e-4*math.Abs(y) {
+				m.ev.Imprecise++
+			}
+			// an inexact operand: the remainder is a discontinuous function of x / y and
+			// its absolute error is err(x) + |trunc(x/y)|*err(y), unbounded relative to the
+			// (possibly tiny) result; only |x| safely below |y| (result = x) can be compared
+			if fz && !(math.Abs(x) < math.Abs(y)*(1-1e-2)) {
 				m.ev.Imprecise++
 			}
 			return m.fres(exact, true)
@@ -824,7 +850,12 @@ func (m *machine) convScalar(v Value, k wgen.Kind) Value {
 		return v
 	}
 	if v.T.S == wgen.AbsFloat && k != wgen.F32 {
-		// abstract-float concretises to f32 before a conversion to another kind
+		// abstract-float concretises to f32 before a conversion to another kind;
+		// when that rounding changes the value the outcome depends on the precision
+		// an implementation evaluates with: not judged
+		if float64(float32(v.F)) != v.F {
+			m.ev.Imprecise++
+		}
 		v = m.convertTo(v, wgen.TF32)
 	} else if v.T.S == wgen.AbsInt && k == wgen.Bool {
 		return BoolV(v.I != 0)
@@ -873,6 +904,8 @@ func (m *machine) convScalar(v Value, k wgen.Kind) Value {
 			r, ok := F32ToU32(f)
 			if !ok {
 				m.ev.F2IRange++
+			} else if f < 0 {
+				m.ev.F2UNegFrac++
 			}
 			return Value{T: t, B: r}
 		}
